@@ -11,6 +11,9 @@ drives it.  This module provides:
   * evidence / replay / VIOLATION / KNOWN-FINDING plumbing.
 """
 import os, sys, json, hashlib, subprocess, shutil, time, re, tempfile, fcntl, glob, random
+import sys as _sys
+if hasattr(_sys, "set_int_max_str_digits"):
+    _sys.set_int_max_str_digits(0)        # runner output may carry huge ints
 from concurrent.futures import ThreadPoolExecutor
 
 VERIF = os.path.dirname(os.path.dirname(os.path.abspath(__file__)))
